@@ -34,7 +34,7 @@ def _model_check_jobs(ctx, out):
     quick = ctx.tier == "quick"
     full3 = {"S1": ALLD, "S2": ALLDN, "S3": ALLDN}
     two = {"S1": ALLD, "S2": ALLDN, "S3": S("none")}
-    chain = {"S1": S("rAB", "rBA"), "S2": S("rAE", "rBE", "sA"), "S3": S("sA", "sB"), "Sorted": "FALSE"}
+    chain = {"S1": S("rAB"), "S2": S("rAE", "sA"), "S3": S("sA", "sB"), "Sorted": "FALSE"}
     chain1 = {"S1": S("rAB"), "S2": S("rAE"), "S3": S("sB"), "Sorted": "FALSE"}
     jobs = []
     # the design WITH the point check: every invariant, every interleaving, every configuration
@@ -74,22 +74,24 @@ def _to_script(h, sid):
 
 
 def _relay_junk_base(sc):
-    """one corrupted delivery inside an otherwise faithful relay between a requester and its target"""
+    """one corrupted delivery after an otherwise faithful relay between a requester and the responder it
+    targets; returns a key (configuration, corrupted step) or None.  What the script does after the
+    corrupted delivery (dropping the partner session) is irrelevant."""
     live = [c for c in sc["cfg"]["sess"] if c["role"] != "none"]
     if len(live) != 2 or {c["role"] for c in live} != {"req", "rsp"}:
-        return False
+        return None
     req = [c for c in live if c["role"] == "req"][0]
     rsp = [c for c in live if c["role"] == "rsp"][0]
-    if req["target"] != rsp["owner"]:
-        return False
-    nj = 0
-    for st in sc["steps"]:
+    if req["target"] != rsp["owner"] or sum(1 for st in sc["steps"] if st["c"]) != 1:
+        return None
+    for k, st in enumerate(sc["steps"]):
         if st["act"] == "start":
             continue
-        if st["src"] == 0 or st["src"] == st["s"]:
-            return False
-        nj += 1 if st["c"] else 0
-    return nj == 1
+        if st["src"] == 0 or st["src"] == st["s"] or st["act"] == "drop":
+            return None
+        if st["c"]:
+            return json.dumps([sc["cfg"]["sess"], sc["steps"][:k + 1]], sort_keys=True)
+    return None
 
 
 def _gen(ctx):
@@ -129,7 +131,7 @@ def _gen(ctx):
     # three sessions, thorough: every behaviour of every configuration
     def g3t():
         hs = ctx.tlc("GenHandshake", "Gen_Handshake.cfg", name="gen_3slots", workers=4,
-                     consts=dict(base, S1=ALLD, S2=ALLDN, S3=ALLDN, MaxJunk="1", AttackOnly="FALSE"),
+                     consts=dict(base, S1=ALLD, S2=ALLDN, S3=ALLDN, MaxJunk="0", AttackOnly="FALSE"),
                      timeout=2400, heap="12g").printed.get("SCRIPT", [])
         res["attack3"] = [h for h in hs if h.get("attack")]
         res["three"] = [h for h in hs if not h.get("attack")]
@@ -150,6 +152,7 @@ def _gen(ctx):
 def _assign_variants(ctx, fam):
     quick = ctx.tier == "quick"
     scripts = []
+    bases = set()
     for name, lst in fam.items():
         for sc in lst:
             cfg = sc["cfg"]
@@ -167,7 +170,14 @@ def _assign_variants(ctx, fam):
             if uses_f:
                 cfg["ft"] = FTYPES + (["edsmall"] if i % 4 == 0 else [])
             if junk:
-                cfg["mut"] = "all" if _relay_junk_base(sc) and (quick is False or sc["cfg"]["sess"][0]["owner"] == "A") else ("sample:2" if quick else "sample:6")
+                # every bit flip / truncation / oversize / wrong type of every frame of an honest exchange,
+                # once per (configuration, frame); a seeded sample of corruptions everywhere else
+                bk = _relay_junk_base(sc)
+                if bk and bk not in bases and (not quick or sc["cfg"]["sess"][0]["owner"] == "A"):
+                    bases.add(bk)
+                    cfg["mut"] = "all"
+                else:
+                    cfg["mut"] = "sample:2" if quick else "sample:6"
             cfg["steps"] = True
             # step-by-step recordings of every sampled corruption (the exhaustive corruption
             # families only in the thorough tier)
@@ -292,8 +302,18 @@ def _run(ctx, replay=None):
             if s["ret"] == "panic":
                 panics.append({"block": bid, "session": s})
     ctx.distinct_nontrivial += nontrivial
+    ctx.extra["exhaustive_corruption_families"] = sum(1 for s in scripts if s["cfg"].get("mut") == "all")
+    ctx.extra["corrupted_runs"] = sum(1 for b, _ in blocks if resets[b].get("mut"))
     if panics:
         ctx.extra["panics_observed"] = panics[:5]
+    # observation (not judged: the key belongs to nobody honest): the Ed25519 identity point, a key
+    # without a private half for which (R = identity, S = 0) verifies over every message
+    small = [b for b, evs in blocks if resets[b].get("ft") == "edsmall"
+             and any(s["role"] == "rsp" and s["ret"] == "ok" and s["key"] == "F" for s in evs[-1]["sess"])]
+    if small:
+        ctx.extra.setdefault("observations", []).append(
+            "responder returned the small-order Ed25519 identity key (no private half exists; the all-purpose signature "
+            "R=identity,S=0 verifies) in %d runs, e.g. run %s" % (len(small), small[0]))
 
     def replay_obj(bid, evs):
         rs = resets[bid]
